@@ -557,12 +557,15 @@ template <class I> bool shorten_control_timeout(I& server, std::chrono::millisec
 }
 
 // One client that connects and then says nothing (or never reads its answer): are the others still served?
-//   ctl-second : a PING sent while a silent client holds the control accept thread (deadline 1.5 s; the
-//                harness shortens the server's client I/O timeout to 300 ms when the server has one)
-//   ctl-wstall : a PING sent while a client that asked for a 12 MiB streamed FETCH never reads it
+//   ctl-second, ctl-hdr1, ctl-hdrpart, ctl-pay0, ctl-payhalf, ctl-paym1 : a PING sent while a client stalls at
+//                one of the blocking read sites of a control connection — before the first byte, after one header
+//                line, inside a header line, after the blank line with 0 / half / all but one of the announced
+//                payload bytes (deadline 4 s; the harness shortens the server's client I/O timeout to 300 ms
+//                when the server has one)
+//   ctl-wstall : a PING sent while a client that asked for an 8 MiB streamed FETCH never reads it
 //   ctl-after  : a PING after the stalling clients went away
-//   tr-second  : a well-formed transport handshake while a silent client holds the transport accept thread
-//                (deadline 4 s: the inbound handshake is bounded by kHandshakeTimeout = 2 s)
+//   tr-second, tr-pay : a well-formed transport handshake while a client stalls inside its peer id / inside its
+//                announced handshake payload (deadline 8 s: the inbound handshake is bounded by kHandshakeTimeout = 2 s)
 std::string stall_probe() {
     std::string out;
     const bool bounded = shorten_control_timeout(*impl, std::chrono::milliseconds(300));
@@ -575,29 +578,53 @@ std::string stall_probe() {
     const auto cport = ntohs(bound.sin_port);
     const auto tport = node->transport_port();
 
-    const int silent_ctl = tcp_connect(cport);
-    std::this_thread::sleep_for(std::chrono::milliseconds(150));
-    out += " ctl-second=" + control_probe(cport, "COMMAND:PING\n\n", 1500);
-    if (silent_ctl >= 0) ::close(silent_ctl);
+    // a client that stalls at each blocking read site of a control connection, each ahead of a PING
+    auto behind = [&](const std::string& sent) {
+        const int fd = tcp_connect(cport);
+        if (fd >= 0 && !sent.empty()) write_all(fd, reinterpret_cast<const std::uint8_t*>(sent.data()), sent.size());
+        std::this_thread::sleep_for(std::chrono::milliseconds(100));
+        const auto r = control_probe(cport, "COMMAND:PING\n\n", 4000);
+        if (fd >= 0) ::close(fd);
+        return r;
+    };
+    const std::string store_head = "COMMAND:STORE\nPAYLOAD-LENGTH:64\n\n";
+    out += " ctl-second=" + behind("");                                   // silent: first header byte never comes
+    out += " ctl-hdr1=" + behind("COMMAND:STORE\n");                      // after one complete header line
+    out += " ctl-hdrpart=" + behind("COMMAND:STORE\nPAYLOAD-LEN");        // in the middle of a header line
+    out += " ctl-pay0=" + behind(store_head);                             // after the blank line, no payload byte
+    out += " ctl-payhalf=" + behind(store_head + std::string(32, 'x'));   // half of the announced payload
+    out += " ctl-paym1=" + behind(store_head + std::string(63, 'x'));     // all but one byte
 
     ChunkId big{}; big[0] = 0xCB;
     protocol::Manifest big_manifest;
     {
         std::scoped_lock lock(node_mutex);
-        big_manifest = node->store_chunk(big, ChunkData(12u << 20, 0x42), std::chrono::seconds(3600));
+        big_manifest = node->store_chunk(big, ChunkData(8u << 20, 0x42), std::chrono::seconds(3600));
     }
     const int deaf = never_reading_client(cport, "COMMAND:FETCH\nMANIFEST:" + protocol::encode_manifest(big_manifest) + "\nSTREAM:client\n\n");
     std::this_thread::sleep_for(std::chrono::milliseconds(400));
-    out += " ctl-wstall=" + control_probe(cport, "COMMAND:PING\n\n", 2500);
+    // generous deadline: the server first decrypts the chunk (slow under ASan on a loaded machine); the question is
+    // "bounded or forever", the bound itself being 300 ms of no progress
+    out += " ctl-wstall=" + control_probe(cport, "COMMAND:PING\n\n", 15000);
     if (deaf >= 0) ::close(deaf);
     out += " ctl-after=" + control_probe(cport, "COMMAND:PING\n\n", 3000);
 
-    const int silent_tr = tcp_connect(tport);
-    const std::uint8_t few[5] = {1, 2, 3, 4, 5};
-    if (silent_tr >= 0) write_all(silent_tr, few, sizeof(few));
-    std::this_thread::sleep_for(std::chrono::milliseconds(150));
-    out += " tr-second=" + transport_probe(tport, 0xB7, 4000);
-    if (silent_tr >= 0) ::close(silent_tr);
+    // the same on the transport accept thread: inside the peer id, and inside the announced handshake payload
+    auto behind_tr = [&](const std::vector<std::uint8_t>& sent, std::uint8_t tag) {
+        const int fd = tcp_connect(tport);
+        if (fd >= 0 && !sent.empty()) write_all(fd, sent.data(), sent.size());
+        std::this_thread::sleep_for(std::chrono::milliseconds(100));
+        const auto r = transport_probe(tport, tag, 8000);
+        if (fd >= 0) ::close(fd);
+        return r;
+    };
+    out += " tr-second=" + behind_tr({1, 2, 3, 4, 5}, 0xB7);
+    {
+        std::vector<std::uint8_t> partial(32, 0x5C);       // complete peer id, length 40, 10 of the 40 bytes
+        partial.insert(partial.end(), {0, 0, 0, 40});
+        partial.insert(partial.end(), 10, 0x01);
+        out += " tr-pay=" + behind_tr(partial, 0xB9);
+    }
     out += " tr-after=" + transport_probe(tport, 0xB8, 4000);
 
     impl->stop();
